@@ -301,3 +301,10 @@ func (a Args) ReplayInput() map[string]interface{} {
 	}
 	return doc.Failure.Input
 }
+
+// Shuffle: Fisher–Yates driven by this stream.
+func (r *Rand) Shuffle(n int, swap func(i, j int)) {
+	for i := n - 1; i > 0; i-- {
+		swap(i, r.Intn(i+1))
+	}
+}
